@@ -274,6 +274,7 @@ def run(run, ix, tier):
                                          'loop condition `%s` reads nothing that the loop body changes'
                                          % norm(loop.test, 60), line=loop.lineno))
     run.stats['unbounded_loops'] = n_unbounded
+    check_asymptotic_thresholds(run, ix)
     # ---- T-R5 / T-R6: iteration and precision caps --------------------------------
     run.rule('T-R5', floor=18, desc='loops that rely on a cap keep it inside the loop')
     run.rule('T-R6', floor=18, desc='the cap comparison is not made infeasible by a clamp')
@@ -410,3 +411,88 @@ def run(run, ix, tier):
             run.fail(Finding('T-R4', rel, qn, norm(target), '; '.join(problems), line=target.lineno))
         else:
             run.ok('T-R4', '%s: %s grows each pass and is compared with %s before raising' % (qn, var, bound))
+
+
+# helpers that sum an ASYMPTOTIC series until a term drops below the resolution of their precision
+# argument; they terminate only if the argument is large enough FOR THAT PRECISION
+ASYMPTOTIC_SERIES = ('real_stirling_series', 'complex_stirling_series', 'ei_asymptotic', 'complex_ei_asymptotic')
+PRECISION_NAMES = ('prec', 'wp', 'prec2', 'workprec')
+
+
+def check_asymptotic_thresholds(run, ix):
+    """T-R8.  An asymptotic series evaluated at precision `wp` terminates only when the argument was
+    made large enough for `wp` bits.  The quantity that decides this (the threshold of the
+    switch-over, the target of the argument reduction) must therefore be computed from the very
+    precision variable the series is called with, after that variable received its final value:
+    a threshold taken from `prec` while the series runs at `wp = prec + 20`, or computed before
+    `wp += extra`, leaves a window of arguments for which the smallest term never drops below
+    2**-wp and the summation loop never ends."""
+    run.rule('T-R8', floor=4, desc='asymptotic series: threshold computed from the precision the series runs at')
+    nsites = 0
+    for rel in ('mpmath/libmp/gammazeta.py', 'mpmath/libmp/libhyper.py'):
+        m = ix.module(rel)
+        for f in m.funcs.values():
+            if f.parent is not None or not isinstance(f.node, ast.FunctionDef):
+                continue
+            calls = [x for x in _walk_own(f.node) if isinstance(x, ast.Call) and isinstance(x.func, ast.Name)
+                     and x.func.id in ASYMPTOTIC_SERIES]
+            for c in calls:
+                pv = c.args[-1] if c.args else None
+                if not isinstance(pv, ast.Name):
+                    raise AnalysisError('%s: precision argument of %s is not a variable' % (f.name, c.func.id))
+                nsites += 1
+                pvn = pv.id
+                # gating quantities: assignments before the call whose value mentions a precision name and
+                # whose target (or the value itself, when it is a comparison) is used in a test
+                tests = [norm(x.test, 300) for x in _walk_own(f.node) if isinstance(x, (ast.If, ast.While, ast.IfExp))]
+                writes = [x for x in _walk_own(f.node) if isinstance(x, (ast.Assign, ast.AugAssign)) and
+                          any(isinstance(t, ast.Name) and t.id == pvn
+                              for t in (x.targets if isinstance(x, ast.Assign) else [x.target]))]
+                problems = []
+                ngates = 0
+                for a in _walk_own(f.node):
+                    if not (isinstance(a, ast.Assign) and len(a.targets) == 1 and isinstance(a.targets[0], ast.Name)):
+                        continue
+                    if a.lineno >= c.lineno:
+                        continue
+                    tname = a.targets[0].id
+                    if tname in PRECISION_NAMES or tname == pvn:
+                        continue
+                    pn = set(n.id for n in ast.walk(a.value) if isinstance(n, ast.Name) and
+                             (n.id in PRECISION_NAMES or n.id == pvn))
+                    if not pn:
+                        continue
+                    used_in_test = any(tname in t.replace('(', ' ').replace(')', ' ').split() or
+                                       (tname + ' ') in t or t.startswith(tname) or (' ' + tname) in t for t in tests)
+                    if not (used_in_test or isinstance(a.value, ast.Compare)):
+                        continue
+                    # a threshold is an int / bool expression: no number-kernel call in it
+                    if any(isinstance(y, ast.Call) and isinstance(y.func, ast.Name) and
+                           y.func.id.startswith(('mpf_', 'mpc_', 'to_fixed', 'from_', 'mpi_'))
+                           for y in ast.walk(a.value)):
+                        continue
+                    if not (isinstance(a.value, ast.Compare) or
+                            (isinstance(a.value, ast.Call) and norm(a.value.func) in ('int', 'max', 'min'))):
+                        continue
+                    ngates += 1
+                    if pvn not in pn:
+                        problems.append((a, 'is computed from `%s`, but the series runs at `%s`' % ('/'.join(sorted(pn)), pvn)))
+                        continue
+                    later = [w for w in writes if a.lineno < w.lineno < c.lineno]
+                    if later:
+                        problems.append((a, 'is computed before `%s` is changed (line %d: `%s`) and the series runs at '
+                                         'the new value' % (pvn, later[0].lineno, norm(later[0], 40))))
+                if problems:
+                    for a, why in problems:
+                        run.fail(Finding('T-R8', rel, f.name, norm(a),
+                                         'the threshold `%s` that guards the asymptotic series %s(..., %s) %s: for '
+                                         'arguments between the two thresholds the smallest term stays above the '
+                                         'resolution and the summation loop does not terminate'
+                                         % (a.targets[0].id, c.func.id, pvn, why), line=a.lineno))
+                elif ngates:
+                    run.ok('T-R8', '%s: %d threshold(s) of %s computed from `%s` after its last change'
+                           % (f.name, ngates, c.func.id, pvn))
+                else:
+                    raise AnalysisError('%s: no precision-dependent threshold found in front of %s' % (f.name, c.func.id))
+    if nsites < 4:
+        raise AnalysisError('asymptotic series call sites vanished (%d)' % nsites)
